@@ -70,6 +70,13 @@ Definition g_call (keeps : bool) (c : Cfg) (init : St) (g : gst) (rs_warm rs : l
       let warm' := match have with None => w | Some w0 => if keeps then w0 else [] end in
       Some (mkG (Some warm') (g_stored g ++ states c (last w s0) rs))
   end.
+
+(* any number of later calls without warm-up (None as soon as one is refused) *)
+Fixpoint g_later (c : Cfg) (init : St) (g : gst) (rss : list (list Rnd)) : option gst :=
+  match rss with
+  | [] => Some g
+  | rs :: rest => match g_call true c init g [] rs with Some g1 => g_later c init g1 rest | None => None end
+  end.
 End LegacyGibbsWarm.
 Arguments mkG {St}. Arguments g_warm {St}. Arguments g_stored {St}.
 
